@@ -37,7 +37,13 @@ def arc_from_theta(edge_point_1: PointType, edge_point_2: PointType, angle: floa
 
     center = pm - length * axis / 2 - rm * mag_chord / 2 / np.tan(angle / 2)
 
-    return f.arc_mid(axis, center, edge_point_1, edge_point_2)
+    # The middle of the arc lies on the bisector of the chord (direction rm), at a radius' distance
+    # from the center, on the side given by the sense of rotation. This holds for the whole range
+    # (0, 2*pi) of either sign; pushing the secant's midpoint out to the radius (arc_mid)
+    # would yield the opposite (minor) arc for sector angles above pi and is undefined at pi.
+    radius = f.norm(edge_point_1 - center)
+
+    return center + length * axis / 2 + np.sign(angle) * radius * rm
 
 
 @dataclasses.dataclass
